@@ -146,3 +146,37 @@ func HarnessC06Errors() {
 	}
 	vCover("checked")
 }
+
+// HarnessC06Pages: several pages share one layout; each page's render shows its own inserts only - a page without
+// inserts leaves the reserves empty whichever pages were loaded before it.
+func HarnessC06Pages() {
+	vfsReset()
+	x := string([]byte{vByte("x")})
+	vfsWriteFile("templates/layouts/main.tw", "L[@reserve(\"r\")|@reserve(\"s\")]")
+	// page kinds: 0 no insert, 1 insert r, 2 inserts r and s (block form), assigned to the names p1 < p2 < p3
+	kinds := []int{vChoice("p1", 3), vChoice("p2", 3), vChoice("p3", 3)}
+	names := []string{"p1", "p2", "p3"}
+	want := make([]string, 3)
+	for i, k := range kinds {
+		tag := string([]byte{byte('1' + i)})
+		page := "@use(\"~main\")"
+		r, s := "", ""
+		switch k {
+		case 1:
+			page += "@insert(\"r\", x + \"" + tag + "\")"
+			r = x + tag
+		case 2:
+			page += "@insert(\"r\")R" + tag + "@end@insert(\"s\")S" + tag + "{{ x }}@end"
+			r, s = "R"+tag, "S"+tag+x
+		}
+		vfsWriteFile("templates/"+names[i]+".tw", page)
+		want[i] = "L[" + r + "|" + s + "]"
+	}
+	tpl, err := newTemplate("templates", ".tw")
+	vCover("loaded")
+	vAssert(err == nil && tpl != nil, "pages-sharing-a-layout-load")
+	i := vChoice("render", 3)
+	out, ferr := tpl.String(names[i], map[string]any{"x": x})
+	vAssert(ferr == nil, "page-renders")
+	vAssert(vEqStr(out, want[i]), "each-page-shows-its-own-inserts-only")
+}
